@@ -374,14 +374,9 @@ fn main() {
                 state.current_stack()
             ));
 
-            res.push_str(&*format!(
-                "
-    last = Option::{};",
-                match state.get_latest_loc() {
-                    Some(v) => format!("Some({})", v),
-                    None => String::from("None"),
-                }
-            ));
+            // the pending return target is a command index here but a block index there
+            let latest = state.get_latest_loc();
+            let mut latest_block = None;
 
             let mut point = state.get_all_point();
             point.sort_by(|a, b| a.1.partial_cmp(&b.1).unwrap());
@@ -403,6 +398,9 @@ fn main() {
                             point[idx].1 = codes.len() - 1;
                             idx += 1;
                         }
+                        if latest == Some(i) {
+                            latest_block = Some(codes.len() - 1);
+                        }
                         codes.push(Vec::new());
                     }
                     Area::Nil => {
@@ -410,6 +408,15 @@ fn main() {
                     }
                 }
             }
+
+            res.push_str(&*format!(
+                "
+    last = Option::{};",
+                match latest_block {
+                    Some(v) => format!("Some({})", v),
+                    None => String::from("None"),
+                }
+            ));
 
             // the residual code starts in a fresh block: the trailing one when the
             // pre-executed prefix ended with an area command, a new one otherwise
